@@ -86,6 +86,7 @@ def _run_task(t):
         E.inconclusive = []
         E.obs_samples = []
         E.obs_budget = max_samples
+        E.xcheck_budget = int(opts.get('xcheck', _W['base'].get('xcheck', 0)))
         left = E.explore(root, args, deadline=time.time() + slice_s, prefixes=prefixes)
         st = E.stats
         return {
@@ -94,7 +95,9 @@ def _run_task(t):
             'solver_s': st.solver_s, 'obligations': st.obligations, 'discharged': st.discharged,
             'trivial': st.trivial, 'unknown': st.unknown, 'reach': st.reach, 'sched_switches': getattr(st, 'sched_switches', 0),
             'goroutines': getattr(st, 'goroutines', 0), 'foreign': getattr(st, 'foreign', 0), 'uf_refined': getattr(st, 'uf_refined', 0),
-            'cvc5_queries': getattr(st, 'cvc5_queries', 0), 'unknown_branches': getattr(st, 'unknown_branches', 0), 'funcs': sorted(st.funcs),
+            'cvc5_queries': getattr(st, 'cvc5_queries', 0), 'unknown_branches': getattr(st, 'unknown_branches', 0),
+            'xchecked': getattr(st, 'xchecked', 0), 'xcheck_cvc5_unsat': getattr(st, 'xcheck_cvc5_unsat', 0), 'xcheck_cvc5_no_answer': getattr(st, 'xcheck_cvc5_no_answer', 0),
+            'xcheck_z3_4_8_12_unsat': getattr(st, 'xcheck_z3_4_8_12_unsat', 0), 'xcheck_z3_4_8_12_no_answer': getattr(st, 'xcheck_z3_4_8_12_no_answer', 0), 'funcs': sorted(st.funcs),
             'samples': st.samples, 'forks': st.forks, 'oblig_tags': st.oblig_tags,
             'violations': [v.to_json() for v in E.violations],
             'inconclusive': E.inconclusive[:10], 'left': left, 'wall': time.time() - t0,
@@ -292,6 +295,7 @@ def run_check(spec, tier='quick', seed=0, jobs=None, keep=False, verbose=True):
             log('[%s] gossa: %d program groups built (%.1fs)' % (pid, len(groups), time.time() - t_start))
         jpath = jpaths.get(None) or list(jpaths.values())[0]
         base_opts = dict(getattr(spec, 'OPTIONS', {}))
+        base_opts.setdefault('xcheck', 0)
         if getattr(spec, 'TAG_FILTER', None):
             base_opts['tag_filter'] = list(spec.TAG_FILTER)
         tasks = spec.tasks(tier)
@@ -305,7 +309,8 @@ def run_check(spec, tier='quick', seed=0, jobs=None, keep=False, verbose=True):
                         initargs=(jpath, base_opts))
         agg = {'paths': 0, 'aborted': 0, 'instrs': 0, 'queries': 0, 'solver_s': 0.0, 'obligations': 0, 'discharged': 0,
                'trivial': 0, 'unknown': 0, 'forks': 0, 'sched_switches': 0, 'goroutines': 0, 'foreign': 0, 'uf_refined': 0,
-               'cvc5_queries': 0, 'unknown_branches': 0}
+               'cvc5_queries': 0, 'unknown_branches': 0, 'xchecked': 0, 'xcheck_cvc5_unsat': 0, 'xcheck_cvc5_no_answer': 0,
+               'xcheck_z3_4_8_12_unsat': 0, 'xcheck_z3_4_8_12_no_answer': 0}
         reach = {}
         oblig_tags = {}
         other_tags = {}
@@ -325,6 +330,12 @@ def run_check(spec, tier='quick', seed=0, jobs=None, keep=False, verbose=True):
             a = (t.full_root(), t.args, t.opts, prefixes, slice_s, t.label, nsamp, jpaths.get(t.group, jpath))
             pool.apply_async(_run_task, (a,), callback=lambda r, t=t: results.append((t, r)),
                              error_callback=lambda e, t=t: results.append((t, {'error': str(e), 'left': [], 'label': t.label})))
+        # a sample of the discharged obligations is re-decided by cvc5 and z3 4.8.12 (about 40 / 200 per run)
+        want_x = 40 if tier == 'quick' else 200
+        every = max(1, len(tasks) // want_x)
+        for ti, t in enumerate(tasks):
+            if ti % every == 0 and 'xcheck' not in t.opts:
+                t.opts = dict(t.opts, xcheck=1)
         for t in tasks:
             submit(t, t.prefixes)
         deadline = time.time() + spec.budget_s(tier) if hasattr(spec, 'budget_s') else None
@@ -605,6 +616,8 @@ def run_check(spec, tier='quick', seed=0, jobs=None, keep=False, verbose=True):
             'cvc5_int_encoding_queries': agg['cvc5_queries'],
             'sat_under_uninterpreted_function_refuted_with_definition': agg['uf_refined'],
             'assertions_owned_by_other_checks_skipped': agg['foreign'],
+            'cross_checked_obligations': {'dumped_as_smtlib2': agg['xchecked'], 'cvc5_unsat': agg['xcheck_cvc5_unsat'], 'cvc5_no_answer_in_5s': agg['xcheck_cvc5_no_answer'],
+                                          'z3_4_8_12_unsat': agg['xcheck_z3_4_8_12_unsat'], 'z3_4_8_12_no_answer_in_5s': agg['xcheck_z3_4_8_12_no_answer']},
             'goroutines_run': agg['goroutines'],
             'goroutine_switches': agg['sched_switches'],
             'loops_cut': 0,
